@@ -127,6 +127,11 @@ impl W {
         }
         let id = self.nw.clients[c].client_id;
         let held = self.nw.servers[0].server.client_addr(id) == Some(d.src);
+        // the capacity this datagram meets: a server that is full at this moment may be less than full again by the end of the tick
+        // (another client's disconnect packet arrives later in the same tick), so the end-of-tick flags alone would miss it
+        if self.nw.clients[c].client.is_connecting() && self.nw.servers[0].server.connected_clients() >= self.limit {
+            self.cl[c].saw_full = true;
+        }
         self.nw.pool[did].presented += 1;
         let first = self.nw.pool[did].presented == 1;
         let out = self.nw.server_recv(0, d.src, &d.bytes);
